@@ -8,6 +8,7 @@ import (
 	"crypto/x509/pkix"
 	"encoding/asn1"
 	"fmt"
+	"sync"
 	"testing"
 	"time"
 
@@ -92,12 +93,7 @@ func TestC14_HugeEntry(t *testing.T) {
 		t.Skip("runs in one shard")
 	}
 	getPool()
-	now := time.Now()
-	// the bulk sits in one non-critical extension of an unknown type (minting and parsing a million
-	// revoked serial numbers would take a quarter of a minute; the cache does not care what fills a CRL)
-	filler := bytes.Repeat([]byte("crl-filler-"), (25<<20)/11)
-	huge := &corecrl.Bundle{BaseCRL: pki.CRL(ca, 990001, now.Add(-time.Hour), now.Add(48*time.Hour), 3,
-		[]pkix.Extension{{Id: asn1.ObjectIdentifier{1, 3, 6, 1, 4, 1, 99999, 14, 1}, Value: filler}})}
+	huge := hugeBundle()
 	size := len(huge.BaseCRL.Raw)
 	rec.Case([]string{"explorer=huge-entry"}, true, stats.Fingerprint("huge-entry"), func() any { return map[string]any{"base_crl_bytes": size} })
 	rec.Set("huge_entry_base_crl_bytes", size)
@@ -128,4 +124,25 @@ func TestC14_HugeEntry(t *testing.T) {
 	if v, problem := readValue(cache, url); problem != "" || v != second.id {
 		rec.Failf(t, "C14:huge-entry:replacement-not-visible", size, "after replacing the huge entry a read gives %d %s", v, problem)
 	}
+}
+
+var (
+	hugeOnce sync.Once
+	hugeB    *corecrl.Bundle
+)
+
+// hugeBundle is a bundle whose base CRL has 25 MiB; it is registered in the pool's hash index.
+func hugeBundle() *corecrl.Bundle {
+	getPool()
+	hugeOnce.Do(func() {
+		now := time.Now()
+		// the bulk sits in one non-critical extension of an unknown type (minting and parsing a million
+		// revoked serial numbers would take a quarter of a minute; the cache does not care what fills a CRL)
+		filler := bytes.Repeat([]byte("crl-filler-"), (25<<20)/11)
+		hugeB = &corecrl.Bundle{BaseCRL: pki.CRL(ca, 990001, now.Add(-time.Hour), now.Add(48*time.Hour), 3,
+			[]pkix.Extension{{Id: asn1.ObjectIdentifier{1, 3, 6, 1, 4, 1, 99999, 14, 1}, Value: filler}})}
+		p := &pooled{id: 990001, bundle: hugeB, hash: hashBundle(hugeB), size: "huge"}
+		byHash[p.hash] = p
+	})
+	return hugeB
 }
